@@ -46,6 +46,9 @@ def oracle_roundtrip(inp):
         return 'own encoding %s does not decode: %s: %s' % (bs.hex(), type(back).__name__, back)
     if back != env:
         return 'decode(encode(v)) != v: bytes %s give %s' % (bs.hex(), _env_to_json(back))
+    tp = U.attempt(lambda: U.decoded_types_problem(cls, bs))
+    if tp:
+        return 'decoding %s: %s' % (bs.hex(), tp)
     again = U.attempt(lambda: U.encode_env(cls, back))
     if isinstance(again, Exception) or again != bs:
         return 're-encoding differs: %s vs %r' % (bs.hex(), again)
@@ -137,6 +140,9 @@ def run(ctx):
                 add('chk_dec %s %s %s' % (L, C.c_hex(bs), U.xres(back, U.c_env)), ('dec', name, mode))
             oracle('roundtrip', {'cls': name, 'env': _env_to_json(env)}, 'roundtrip:' + name)
             D.add((name, repr(env)), len(env) > 0, 'in-range-' + mode)
+        # instances must not share state: after all those assignments a new object has the defaults
+        obj2 = U.attempt(lambda: cls())
+        add('chk_create %s %s' % (L, U.xres(obj2, lambda o: U.c_env(U.canon_env(o)))), ('create-again', name))
         # malformed stream: as-created object, a field set to None, an out-of-range integer,
         # a fixed array of the wrong length
         created = U.canon_env(obj)
